@@ -221,6 +221,19 @@ Theorem C05_remove_is_the_plain_deletion :
 Proof. exact remove_plain. Qed.
 Print Assumptions C05_remove_is_the_plain_deletion.
 
+(* the reading is faithful to consolidation: what it returns never has two adjacent text nodes in a child list, and it returns
+   the store itself (slots forgotten) exactly when the store has none — so "the store after the call is the reading of the plain
+   move" says both that nothing but the move happened and that every pair of text nodes the move brought together was merged *)
+Theorem C05_reading_is_a_normal_form :
+  forall u top, una (unormb top u) = true.
+Proof. intros u top. exact (proj2 (unormb_normal u top)). Qed.
+Print Assumptions C05_reading_is_a_normal_form.
+
+Theorem C05_reading_is_the_identity_exactly_on_consolidated_stores :
+  forall f, unormb true (erase f) = erase f <-> na f = true.
+Proof. exact reading_fixpoint. Qed.
+Print Assumptions C05_reading_is_the_identity_exactly_on_consolidated_stores.
+
 (* the argument checks, and the successful outcome, are what the statements above assume *)
 Theorem C05_checked_calls_succeed :
   forall st,
